@@ -45,7 +45,10 @@ def run(check: core.Check) -> None:
     limit = 120000 if quick else 10**7
     exhaustive = len(pairs) <= limit
     if not exhaustive:
-        pairs = rnd.sample(pairs, limit)
+        # TypedDict-vs-TypedDict pairs are always replayed (few, and each flag combination matters)
+        keep = [p for p in pairs if p["a"]["k"] == "typeddict" and p["b"]["k"] == "typeddict"]
+        rest = [p for p in pairs if not (p["a"]["k"] == "typeddict" and p["b"]["k"] == "typeddict")]
+        pairs = keep + rnd.sample(rest, limit - len(keep))
     check.cov["exhaustive"] = exhaustive
     check.cov["rule"] = "pairs (A, B) of type terms enumerated by TLC; non-trivial = at least one side is not a plain class / Any"
     obs = core.pmap(ac.observe_pair, list(enumerate(pairs)), chunk=2000)
